@@ -50,6 +50,7 @@ class PathResult:
         self.ext_calls = set()
         self.recursion_cut = set()
         self.rec_cut_args = []
+        self.text_calls = []
         self.extra = {}
 
     def ctx(self):
@@ -92,6 +93,7 @@ class Interp(StmtMixin, OpsMixin, ObjMixin, CallMixin):
         self.rec_limit = 2
         self.global_cache = {}
         self.vol_cache = {}
+        self.text_calls = []
         self.key_alias = []  # (element path, path of the first segment's element) in loops over a + b + c
         self.vol_reads = []  # log of reads of volatile attributes (live read vs. snapshot)
         self.intervals = {}
@@ -158,6 +160,7 @@ class Interp(StmtMixin, OpsMixin, ObjMixin, CallMixin):
         pr.ext_calls = self.ext_calls
         pr.recursion_cut = self.recursion_cut
         pr.rec_cut_args = self.rec_cut_args
+        pr.text_calls = self.text_calls
         pr.fresh_in_condition = self.fresh_in_condition
         pr.intervals = dict(self.intervals)
         pr.carried = self.carried
